@@ -182,6 +182,25 @@ func newPool() []pv {
 	st := starlarkstruct.FromStringDict(starlarkstruct.Default, starlark.StringDict{"a": I(1), "b": starlark.String("x")})
 	add("struct", st)
 	add("struct-empty", starlarkstruct.FromStringDict(starlarkstruct.Default, starlark.StringDict{}))
+	// iterables of unknown length (Len() < 0) and other lazy views
+	for _, m := range []struct {
+		recv starlark.Value
+		name string
+	}{
+		{starlark.String("abc"), "codepoints"}, {starlark.String("a"), "codepoints"}, {starlark.String(""), "elems"},
+		{starlark.String("héllo"), "codepoint_ords"}, {starlark.String("ab"), "elem_ords"}, {starlark.Bytes("abc"), "elems"}, {starlark.Bytes(""), "elems"},
+	} {
+		if f, err := m.recv.(starlark.HasAttrs).Attr(m.name); err == nil && f != nil {
+			if v, err := starlark.Call(th, f, nil, nil); err == nil {
+				add("lazy-"+m.name, v)
+			}
+		}
+	}
+	if f, err := mkDict(starlark.String("a"), I(1)).Attr("items"); err == nil {
+		if v, err := starlark.Call(th, f, nil, nil); err == nil {
+			add("dict-items", v)
+		}
+	}
 	add("module-json", sjson.Module)
 	add("module-math", smath.Module)
 	add("time", stime.Time(time.Unix(1700000000, 123456789).UTC()))
